@@ -664,3 +664,68 @@ def variants(world, tier="quick", only=None):
     if only:
         out = [v for v in out if any(o in v.name for o in only)]
     return out
+
+
+# ---------------------------------------------------------------------------
+# Solver.get_values / get_py_values: the plural calls are the single calls, formula by formula
+# ---------------------------------------------------------------------------
+class SolverPluralVariant(Variant):
+    """Solver.get_values / get_py_values on a two-formula list: each formula maps to what get_value / get_py_value answers
+    for that formula (asked once each, about that formula); an error only when a single call fails."""
+    prop_ids = ("C17",)
+
+    def __init__(self, world, method):
+        self.world, self.method = world, method
+        self.single = {"get_values": "get_value", "get_py_values": "get_py_value"}[method]
+        self.qualname = "pysmt.solvers.solver.Solver." + method
+        self.name = "solver-plural:%s" % method
+
+    def setup(self, ex):
+        W = self.world
+        env = core.make_env(ex, W)
+        self.f, self.g = z3.Const("formula", Node), z3.Const("other_formula", Node)
+        for x in (self.f, self.g):
+            W.touch(ex, x)
+        ex.assume(self.f != self.g)
+        self.V = z3.Function("single_call_answer", Node, Node)
+        self.asked = []
+        v = self
+        s = Obj(CLS, {"environment": env}, tag="solver")
+
+        def single(exx, a, kw):
+            rest = [x for x in a if x is not s]
+            x = rest[0] if rest else kw.get("formula", kw.get("item"))
+            v.asked.append(x)
+            if exx.decide(exx.fresh("single_call_raises", B)):
+                exx.ghost["single_failed"] = True
+                raise PyRaise(ExcVal("PysmtTypeError", ("no value",)))
+            r_ = v.V(x)
+            W.touch(exx, r_)
+            return r_
+        s.fields[self.single] = Builtin(self.single, single, bound=s)
+        fi = W.repo.func(self.qualname)
+        return W.wrap_func(fi, fi.module, bound=s), [[self.f, self.g]], {}
+
+    def check(self, ex, outcome):
+        kind, r = outcome
+        if kind == "raise":
+            return [("error-only-when-the-single-call-fails", z3.BoolVal(bool(ex.ghost.get("single_failed"))))]
+        if not isinstance(r, DictVal):
+            return [("returns-a-dictionary", z3.BoolVal(False))]
+        goals = [("one-entry-per-formula", z3.BoolVal(len(r.items) == 2))]
+        for x, nm in ((self.f, "first"), (self.g, "second")):
+            hit = [v_ for k_, v_ in r.items if is_node(k_) and k_.eq(x)]
+            goals.append(("%s-formula-maps-to-its-single-call-answer" % nm, (hit[0] == self.V(x)) if len(hit) == 1 and is_node(hit[0]) else z3.BoolVal(False)))
+        return goals
+
+
+_base_variants17c = variants
+
+
+def variants(world, tier="quick", only=None):
+    out = _base_variants17c(world, tier, None)
+    for m in ("get_values", "get_py_values"):
+        out.append(SolverPluralVariant(world, m))
+    if only:
+        out = [v for v in out if any(o in v.name for o in only)]
+    return out
